@@ -36,6 +36,13 @@ def _pre_items(r, plan_words, secrets, n, plan_opts=None, addrs=()):
             items.append({"kind": "run", "step": {"entry": r.choice(["files", "file", "io", "cli"]), "opts": dict(plan_opts),
                                                   "in": "in", "out": "other/again%d" % len(items), "dump": None}, "bad": False})
             continue
+        if plan_opts is not None and plan_opts.get("ip") and plan_opts.get("salt") is not None and r.random() < 0.15:
+            # a live anonymizer with the very same options has already translated OTHER addresses (they are no part of this
+            # run's input and must not show up in its map)
+            items.append({"kind": "lines", "opts": dict(plan_opts, undo=False),
+                          "text": " ip address 23.%d.%d.9 255.255.255.0\n neighbor 100.%d.7.%d remote-as 65001\n ipv6 address 2001:db8:%x::%x/64\n" % (
+                              r.randint(0, 255), r.randint(0, 255), r.randint(64, 127), r.randint(1, 254), r.getrandbits(16), r.getrandbits(12) + 1)})
+            continue
         if plan_opts is not None and r.random() < 0.3:
             # an earlier run over the SAME input in this process, with other options (library use)
             o2 = dict(plan_opts)
@@ -453,7 +460,40 @@ def _gen_c10(r, seed, child=False):
             lines.append(G.expand(r, r.choice(G.LINES_A4), ctx))
     if r.random() < 0.05:
         lines.insert(r.randint(0, len(lines)), GC.boundary_line(r, ctx, boundary=r.choice([8192, 65536, 65536]), words=True))
-    if (o["ip"] or o["undo"] or o["pwd"]) and r.random() < 0.06:
+    collide = None
+    if r.random() < 0.08 and style != "reserved":
+        # two matched texts directed at one another: with ~10 000 case variants of a long word list, some pair shares the first
+        # six hex digits of md5(salt + text) - the construction the code documents.  Used only to aim: the oracle stays
+        # "a matched text has one pseudonym, whatever else the run has seen" (the second execution reads the lines backwards)
+        import hashlib
+        extra = [w for w in G.gen_words(r, 40, G.VOCAB_TEXT + "\n" + "\n".join(o["words"])) if w.isascii() and len(w) >= 7]
+        allw = o["words"] + [w for w in extra if w.lower() not in [x.lower() for x in o["words"]]]
+        # no word of these plans contains another (the per-occurrence pseudonym check is skipped for overlapping lists)
+        o["words"] = [w for i, w in enumerate(allw) if not any(i != j and w.lower() in x.lower() for j, x in enumerate(allw))] or allw[:1]
+        extra = [w for w in extra if w in o["words"]]
+        lines[:] = [ln for ln in lines if all(sg[0] not in ("w", "near", "rw") or sg[0] != "w" or sg[1].lower() in [x.lower() for x in o["words"]]
+                                              for sg in ln["segs"])]
+        for ln in lines:
+            for sg in ln["segs"]:
+                if sg[0] == "w":
+                    sg[2]["w"] = [x.lower() for x in o["words"]].index(sg[1].lower())
+        seen = {}
+        for w in extra:
+            low = w.lower()
+            for m in range(1 << len(low)):
+                t = "".join(ch.upper() if m >> i & 1 else ch for i, ch in enumerate(low))
+                k = hashlib.md5((o["salt"] + t).encode()).hexdigest()[:6]
+                if k in seen and seen[k] != t:
+                    collide = [seen[k], t]
+                    break
+                seen[k] = t
+            if collide:
+                break
+        if collide:
+            for t in collide:
+                wi = [x.lower() for x in o["words"]].index(t.lower())
+                lines.append({"segs": [["lit", "hostname "], ["w", t, {"w": wi}], ["lit", "-gw"]], "eol": "\n"})
+    if (o["ip"] or o["undo"] or o["pwd"]) and r.random() < 0.06 and not collide:
         # the last line makes an earlier stage fail (today the file then fails at that line, C14's subject): whatever is
         # written for it must not hold a listed word
         wi = r.randrange(len(o["words"]))
@@ -499,7 +539,7 @@ def _gen_c10(r, seed, child=False):
             it.pop("bad", None)
     return {"family": NAME, "seed": seed, "mode": "c10", "files": [{"path": "in/a.cfg", "lines": lines}], "dirs": ["in"],
             "secrets": secrets, "opts": o, "entry": r.choice(["cli", "files", "io", "file"]), "orders": orders, "pre": pre,
-            "k1": GC.gen_knobs(r), "style": style, "rw": rw, "user_reserved": user_res,
+            "k1": GC.gen_knobs(r), "style": style, "rw": rw, "user_reserved": user_res, "collide": collide,
             "child_hashseeds": [r.randint(1, 4_000_000_000) for _ in range(2)] if child else []}
 
 
@@ -534,8 +574,21 @@ def _check_c10(plan):
     outs = []
     for hs in plan.get("child_hashseeds", []):
         execs.append((("child", hs), pre_items))
+    if plan.get("collide"):
+        execs.append((("reversed", plan["orders"][0]), []))
+        probes["directed_collisions"] = 1
     probes["child_runs"] = 0
+    lines_fwd, disk_fwd = lines, disk
     for order, pre in execs:
+        lines, disk = lines_fwd, disk_fwd
+        rev_note = ""
+        if isinstance(order, tuple) and order[0] == "reversed":
+            rev_note = ", lines read last first"
+            # the same lines, last first: every matched text must still get the pseudonym it got before
+            lines = list(reversed(lines_fwd))
+            disk = copy.deepcopy(disk_fwd)
+            disk["files"]["in/a.cfg"] = G.render_file([dict(ln, eol="\n") for ln in lines], "a", plan["secrets"])
+            order = order[1]
         step = {"entry": plan["entry"], "opts": o, "in": "in/a.cfg", "out": "out.cfg", "dump": None}
         if isinstance(order, tuple):
             probes["child_runs"] += 1
@@ -562,7 +615,7 @@ def _check_c10(plan):
             olines = data.decode("utf-8").split("\n")
         except UnicodeDecodeError:
             continue
-        label = "set order %s%s" % (order, ", after %d unrelated earlier anonymizer(s) in the same process" % len(pre) if pre else "")
+        label = "set order %s%s%s" % (order, ", after %d unrelated earlier anonymizer(s) in the same process" % len(pre) if pre else "", rev_note)
         outs.append((label, data))
         for ln_no, ol in enumerate(olines):
             for tok in ol.split():
